@@ -482,7 +482,12 @@ def resize_array(arr, newshp, offset=None, pad_mode='constant', pad_const=0,
         raise ValueError("`pad_const` must be 0 for 'adjoint' direction, "
                          "got {}".format(pad_const))
 
-    if direction == 'forward' and pad_mode == 'constant' and pad_const != 0:
+    if (direction == 'forward' and pad_mode == 'constant' and
+            pad_const != 0 and
+            any(n_new > n_orig
+                for n_orig, n_new in zip(arr.shape, out.shape))):
+        # Without a growing axis there is nothing to pad (`pad_const` may
+        # then not even be representable in `out.dtype`, see above)
         out.fill(pad_const)
     else:
         out.fill(0)
